@@ -10,6 +10,8 @@ Decides:
   c. the clone shortcut is only taken when every requested root is a root of
      the original; configured imports, packages and the node-specifier flag
      are carried over.
+  s. (F8, known finding) the walk that feeds the segment must not skip loaded
+     module slots: in a TypesOnly graph it does.
   w. the walk that feeds the segment (shared with C15/C02): enqueue-once
      discipline, edge selection per kind/option, types-only substitution only
      for a resolved types dependency, every redirect hop yielded.
@@ -94,6 +96,31 @@ def run(F, R, tier):
                 ok = len(ps) == 1 and any(peel_value(y).get("lid") in binds for y in through_locals(ps[0]["args"][0]))
     R.ob("C18-b", "the walk that feeds the segment yields every hop of a redirect chain", ok,
          "the walker jumps from a redirect entry to something other than the redirect's own target: hops in between are never yielded, so the segment loses their redirects", nx["file"])
+
+    # ---------------- C18-s (F8) -------------------------------------------
+    # segment() copies only what the walk yields and walks with the graph's own
+    # kind.  Every lookup on the segment (resolve_dependency_from_dep with
+    # prefer_types, try_get ..) consults module_slots of the *code* module, and a
+    # direct build of the roots loads it too.  So the walk that feeds the segment
+    # must not skip a ModuleSlot::Module entry unless a switch that segment()
+    # can turn off guards the skip.
+    skips = []
+    for m_ in [n for n in nx["_nodes"] if n["k"] == "Match"]:
+        for arm in m_["arms"]:
+            if "graph::ModuleSlot::Module" in pat_text(arm["pat"]):
+                skips += [c for c in walk(arm["body"], into_closures=False) if c["k"] == "Continue"]
+    walker_fields = {"kind", "seen", "visiting", "check_js", "graph", "follow_dynamic", "prefer_fast_check_graph", "previous_module"}
+    bad_skips = []
+    for c in skips:
+        g = guards_at(F, c)
+        switch = [x for x in g if x.kind == "cond" and any(y.get("k") == "Field" and y.get("adt") == c15.IT and y["field"] not in walker_fields for y in walk(x.node))]
+        if not switch:
+            bad_skips.append(c)
+    R.ob("C18-s", "the walk that feeds the segment never skips a loaded module slot", not bad_skips,
+         "ModuleEntryIterator::next skips (`continue`) a ModuleSlot::Module entry in types-only walks and ModuleGraph::segment walks with the graph's own kind: "
+         "segmenting a TypesOnly graph drops every JS module that has a resolved types dependency (and unchecked JS), so `resolve_dependency(.., prefer_types = true)` "
+         "answers None on the segment where the original answers the types module, and the segment lacks a module a direct build of the roots contains",
+         where(bad_skips[0]) if bad_skips else "", key="C18|C18-s|segment-of-types-only-graph-drops-substituted-code-modules")
 
     # ---------------- C18-w ------------------------------------------------
     # the segment is exactly what the walk yields, so the walk's own selection
